@@ -110,6 +110,8 @@ theorem stream_op_of_task {s : State} (hr : Reachable s) {st : Stream} (hst : st
     obtain ⟨t, h1, h2⟩ := hI.oinv.o1 _ op hop
     exact ⟨op, t, hop, h1, h2⟩
 
+example : s2.streams.length = 2 := by decide
+
 /-- **do_not_cache / background tasks are never in the map.** -/
 theorem do_not_cache_never_in_map {s : State} (hr : Reachable s) {tid : Nat} {t : Task}
     (ht : s.task? tid = some t) (hd : t.doNotCache = true ∨ t.background = true) (k : Nat) :
@@ -153,6 +155,11 @@ theorem do_not_cache_never_merged {s s0 s' : State} (hr : Reachable s) {h : Hint
   obtain ⟨a, b, t, c1, c2, c3, _⟩ := wp_of_ok (execBody_miss hI0 hd hroute) hs'
   simp only [if_true] at b
   exact ⟨a, b, by rw [b]; exact hd, t, c1, c2, c3⟩
+
+/-- the hypotheses are satisfiable: in `s1` key 77 misses the map and a platform queue is found -/
+example : (match enter h0 s1 0 with
+    | .ok s0 => alookup 77 s0.dedup == none && (route s0 [] 7).isSome
+    | .error _ => false) = true := by decide
 
 /-- two `do_not_cache` requests for the same key yield two tasks -/
 example : (run s1 [ .exec h0 0 102 77 77 true [] 7 [1] 0, .exec h0 0 103 77 77 true [] 7 [1] 0 ]).nextTask
@@ -247,6 +254,13 @@ theorem leaver_harmless_remove {s s' : State} (hr : Reachable s) {h : Hints} {o 
     | false => rfl
     | true => exact absurd (filter_ne_empty_length (hI.oinv.o3 _ t ht).1 h2 he) hlen
   exact removeOp_nonlast hop ht hlen hne hh
+
+/-- removing operation 2 of the sample (task 1 has operations 1 and 2) leaves operation 1 and
+does not complete the task -/
+example : (match removeOp h0 s2 2 with
+    | .ok s' => (s'.task? 1).map (fun t => (t.ops, t.response.isSome, t.stage)) ==
+        (s2.task? 1).map (fun t => ([1], t.response.isSome, t.stage))
+    | .error _ => false) = true := by decide
 
 /-- the last operation, on the contrary, completes the task with CANCELED / `noWaiters`
 (non-vacuity of the hypothesis `length ≠ 1` above: here it is `1`) -/
